@@ -5,6 +5,7 @@ from collections import deque
 from collections.abc import Iterable
 from collections.abc import Set as AbstractSet
 from decimal import Decimal
+from fractions import Fraction
 from enum import Enum, EnumMeta
 from functools import partial
 from typing import (Any, AsyncGenerator, Callable, Dict, Generator, List,
@@ -898,15 +899,22 @@ class Constraints:
         return round(value, r)
 
     @classmethod
+    def _mod(cls, value, of):
+        if isinstance(value, int) and isinstance(of, float):
+            # int % float converts the int to a float first, which is not exact beyond 2 ** 53
+            return Fraction(value) % Fraction(of)
+        return value % of
+
+    @classmethod
     def multiple_of(cls, value, of: int):
-        mod = value % of
+        mod = cls._mod(value, of)
         if mod:
             raise ValueError
         return value
 
     @classmethod
     def lax_multiple_of(cls, value, of: int):
-        mod = value % of
+        mod = cls._mod(value, of)
         if mod:
             if isinstance(value, float):
                 # binary floats drift: (1.0 // 0.1) * 0.1 == 0.9, and the next pass gives 0.8 ...
@@ -917,13 +925,13 @@ class Constraints:
             if isinstance(value, int) and not isinstance(of, int):
                 # a fractional step on an int rule: the result has to stay an integer
                 # (the largest integral multiple below the value, judged on the decimal text of the step)
-                step = Decimal(str(of))
-                count = (Decimal(value) / step).to_integral_value(rounding="ROUND_FLOOR")
+                step = Fraction(str(of))
+                count = Fraction(value) // step
                 for _ in range(10000):
                     multiple = count * step
-                    if multiple == multiple.to_integral_value() or not count:
+                    if multiple.denominator == 1:
                         return type(value)(int(multiple))
-                    count -= 1 if count > 0 else -1
+                    count -= 1
                 raise ValueError
             return (value // of) * of
         return value
